@@ -4,6 +4,7 @@ from __future__ import annotations
 from core import Case, Failure
 
 PROP = "C10"
+CONSTS = []          # constant tables of the models this property depends on
 RULE = ("random access histories per (policy, associativity); quick: assoc 1..8 (PLRU 1,2,4,8,16), "
         "thorough adds breadth-first enumeration of every reachable policy state and every access from it "
         "(LRU assoc<=5, PLRU assoc<=8); a case is non-trivial when it contains >=2 accesses to distinct ways; "
